@@ -434,4 +434,51 @@ theorem writeFields_bits : ∀ (fs : List FieldMeta) (vs : List Val) (buf buf' :
         (fun g hg => hgen g (List.mem_cons_of_mem _ hg)) hz1 q2 h2
       exact ⟨by omega, r2, fun k => by simp [r3 k, q3 k, fieldsBit, hs', Bool.or_assoc]⟩
 
+/-- The second validity check of parse_struct ("Fields smaller than 8 bits may not cross byte boundaries") is dead code:
+    whenever it would fire, the alignment check before it has fired already. -/
+theorem parseField_not_smallCrosses (d : FieldDecl) (total : Nat) : parseField d total ≠ .error .smallCrosses := by
+  intro h
+  unfold parseField at h
+  split at h
+  · rename_i e he
+    simp only [bitWidthAttr] at he
+    split at he
+    · simp only [Except.error.injEq] at he h
+      subst he
+      cases h
+    · cases he
+  · generalize d.preSkipBits = pre at h
+    generalize d.postSkipBits = post at h
+    simp only at h
+    split at h
+    · split at h <;> cases h
+    · split at h
+      · cases h
+      · split at h
+        · cases h
+        · rename_i hA
+          split at h
+          · rename_i hB
+            simp only [FieldMeta.bytesLen, FieldMeta.bitsLen, mkFieldMeta] at hA hB
+            omega
+          · cases h
+
+theorem parseFields_not_smallCrosses : ∀ (ds : List FieldDecl) (total : Nat),
+    parseFields ds total ≠ .error .smallCrosses
+  | [], _ => by simp [parseFields]
+  | d :: rest, total => by
+    intro h
+    unfold parseFields at h
+    split at h
+    · rename_i e he
+      simp only [Except.error.injEq] at h
+      subst h
+      exact parseField_not_smallCrosses d total he
+    · split at h
+      · rename_i e he
+        simp only [Except.error.injEq] at h
+        subst h
+        exact parseFields_not_smallCrosses rest _ he
+      · cases h
+
 end Ec.Wire
